@@ -808,6 +808,54 @@ func (c *Ctx) ruleCollectBeforeUse() {
 			})
 		}
 	}
+	// ... and a lookup whose HIT is acted upon (`if ut, ok := X.Get(name); ok && ... { <no error> }`): what the build does
+	// then depends on whether the name was already registered when this block was reached. (A hit that returns an error
+	// is the duplicate test of an insert.)
+	for i, ph := range phases {
+		for _, f := range c.reachableAcrossLib(ph) {
+			pk := f.Pkg
+			if strings.HasSuffix(pk.Fset.Position(f.Decl.Pos()).Filename, "_gen.go") {
+				continue
+			}
+			ast.Inspect(f.Decl.Body, func(nd ast.Node) bool {
+				ifs, ok := nd.(*ast.IfStmt)
+				if !ok || ifs.Init == nil || returnsNonNilError(pk, ifs.Body.List) {
+					return true
+				}
+				as, ok := ifs.Init.(*ast.AssignStmt)
+				if !ok || len(as.Lhs) != 2 || len(as.Rhs) != 1 {
+					return true
+				}
+				okId, isId := as.Lhs[1].(*ast.Ident)
+				if !isId || okId.Name == "_" {
+					return true
+				}
+				sp := ""
+				if b, _, isIdx := indexOn(pk, as.Rhs[0]); isIdx {
+					sp = c.nameSpaceOf(pk, b)
+				} else if call, isCall := ast.Unparen(as.Rhs[0]).(*ast.CallExpr); isCall {
+					if cal := callee(pk, call); cal != nil && cal.Name() == "Get" {
+						if sel, ok := ast.Unparen(call.Fun).(*ast.SelectorExpr); ok {
+							sp = c.nameSpaceOf(pk, sel.X)
+						}
+					}
+				}
+				if sp == "" || strings.HasPrefix(sp, "field ") {
+					return true
+				}
+				hit := false
+				for _, a := range impliedAtoms(ifs.Cond, true) {
+					if id, ok := ast.Unparen(a.e).(*ast.Ident); ok && a.holds && pk.TypesInfo.Uses[id] == pk.TypesInfo.Defs[okId] {
+						hit = true
+					}
+				}
+				if hit {
+					bySpace[sp] = append(bySpace[sp], acc{i, nsAccess{f.Name(), ifs.Pos(), "resolve"}})
+				}
+				return true
+			})
+		}
+	}
 	var spaces []string
 	for sp := range bySpace {
 		spaces = append(spaces, sp)
